@@ -9,7 +9,11 @@ namespace {
 #ifndef VH_SCALAR
 #define VH_SCALAR Rat
 #endif
-constexpr size_t OPMAX = 3;  // operand orders 0..3 (results up to 6)
+constexpr size_t OPMAX = 5;  // operand orders 0..5 (results up to 10)
+// binary calls: every pair of orders 0..3; an operand of order 4 or 5 with a partner of order <= 2 or of its own order
+constexpr bool pairOK(size_t oa, size_t ob) {
+  return (oa <= 3 && ob <= 3) || (oa >= 4 && oa <= OPMAX && (ob <= 2 || ob == oa)) || (ob >= 4 && ob <= OPMAX && oa <= 2);
+}
 
 // SplNew: construction from (support window, coefficients) with every count;
 // also the grid-only constructor and the deduction guide.
@@ -127,7 +131,7 @@ void splBin(const json &in, json &out) {
   withOrder(ja.at("o").get<size_t>(), [&](auto OA) {
     withOrder(jb.at("o").get<size_t>(), [&](auto OB) {
       constexpr size_t oa = decltype(OA)::value, ob = decltype(OB)::value;
-      if constexpr (oa <= OPMAX && ob <= OPMAX) {
+      if constexpr (pairOK(oa, ob)) {
         const auto ap = opSpline<T, oa>(ja, ga);
         const auto bp = opSpline<T, ob>(jb, gb, share ? 0 : 1);
         auto &a = operandRef(ap);
